@@ -6,6 +6,7 @@ use std::io::{BufRead, Write};
 mod ops_argv;
 mod ops_context;
 mod ops_descriptor;
+mod ops_doc;
 mod ops_env;
 mod ops_graph;
 mod ops_inventory;
@@ -17,6 +18,9 @@ mod ops_serde;
 mod ops_writer;
 
 fn main() {
+    if let Ok(req) = std::env::var("VERIF_EXECD") {
+        ops_doc::execd_child(&req);
+    }
     if let Ok(req) = std::env::var("VERIF_RUNTIME") {
         ops_runtime::child(&req);
     }
@@ -64,6 +68,7 @@ fn dispatch(op: &str, req: &Value) -> Value {
         "runner-scenario" => ops_runner::run(req),
         "normalize-descriptor" => ops_descriptor::run(req),
         "runtime" => ops_runtime::run(req),
+        "write-doc" => ops_doc::run(req),
         "dep-graph" => ops_graph::run(req),
         _ => json!({"error": format!("unknown op {op}")}),
     }
